@@ -817,15 +817,22 @@ def parse_int(E, s, t):
         if v < minv:
             return parse_int_err('NegOverflow')
         return ok(I(t, v))
-    W = w + 8 + 4 * len(digs)          # wide enough for len(digs) decimal digits
-    acc = z3.BitVecVal(0, W)
-    for b in digs:
-        acc = acc * 10 + z3.ZeroExt(W - 8, b.z() - 48)
-    safe_digits = len(str(maxv)) - 1
-    if len(digs) > safe_digits:
-        lim = z3.BitVecVal(-minv if neg else maxv, W)
-        if E.branch(z3.UGT(acc, lim)):
+    # overflow is decided on the digit string (strip leading zeros, compare length, then compare
+    # lexicographically with the limit's decimal spelling): 8-bit comparisons only
+    lim = str(-minv if neg else maxv)
+    k = 0
+    while k < len(digs) - 1 and E.branch(i_eq(digs[k], U8(48))):
+        k += 1
+    sig = digs[k:]
+    if len(sig) > len(lim):
+        return parse_int_err('NegOverflow' if neg else 'PosOverflow')
+    if len(sig) == len(lim):
+        if E.branch(bytes_lt(lit(lim), sig)):
             return parse_int_err('NegOverflow' if neg else 'PosOverflow')
+    W = w + 4
+    acc = z3.BitVecVal(0, W)
+    for b in sig:
+        acc = acc * 10 + z3.ZeroExt(W - 8, b.z() - 48)
     r = z3.Extract(w - 1, 0, acc)
     if neg:
         r = -r
